@@ -77,6 +77,8 @@ func main() {
 		cmdCallees()
 	case "run":
 		cmdRun(os.Args[2:])
+	case "bmc":
+		cmdBMC(os.Args[2:])
 	default:
 		fmt.Fprintln(os.Stderr, "unknown command")
 		os.Exit(2)
